@@ -3,6 +3,7 @@ package main
 import (
 	"fmt"
 	"math/rand"
+	"strings"
 
 	"verif/core"
 	"verif/model"
@@ -195,5 +196,47 @@ func checkC01(c *core.Ctx) {
 			f.Key = model.RandKey(r)
 		}
 		judgePitches(c, "keyplace", i, p, f, writeOpts{})
+	})
+
+	// user dictionaries: "every chord symbol of the dictionary", "inherited ones included" holds for the
+	// dictionary in force, i.e. with --chord/--attr files loaded: inheritance forests split over several
+	// files in any order, symbols taken over from built-ins, used by name and by display
+	c.Stream("userdict", c.N(400, 8000), func(i int, r *rand.Rand) {
+		f := genForest(r, fmt.Sprint(i%10))
+		args := writeDictFiles(c, r, f)
+		var p model.Piece
+		n := 2 + r.Intn(7)
+		for j := 0; j < n; j++ {
+			in := model.Instance{Values: one()}
+			if r.Intn(3) == 0 {
+				in.Key = model.RandKey(r)
+			}
+			ch := &model.ChordSpec{Deg: model.RandInterval(r, 5)}
+			if r.Intn(3) == 0 {
+				b := model.RandInterval(r, 8)
+				ch.Bass = &b
+			}
+			switch uc := f.chords[r.Intn(len(f.chords))]; r.Intn(5) {
+			case 0:
+				// a built-in next to the user's chords (not one whose symbol or name the forest redefines)
+				for {
+					ch.Symbol = model.RandSymbol(r)
+					if ch.Symbol != "add9" && ch.Symbol != "AddedNinth" && (f.takenOver == "" || ch.Symbol != theory.ChordNames[f.takenOver]) {
+						break
+					}
+				}
+			case 1, 2:
+				ch.Symbol, ch.Semis = uc.Name, f.semis[uc.Name]
+			default:
+				ch.Symbol, ch.Semis = uc.Display, f.semis[uc.Name]
+			}
+			in.Chord = ch
+			p.Inst = append(p.Inst, in)
+		}
+		o := randWriteOpts(r)
+		o.extra = args
+		if judgePitches(c, "userdict", i, p, model.Flags{}, o) && c.WantSample() {
+			c.Sample(mergeMaps(pieceDesc(p, model.Flags{}), map[string]any{"chord_yaml": short(string(chordsYAML(f.chords)), 1200), "args": strings.Join(args, " ")}))
+		}
 	})
 }
